@@ -249,7 +249,9 @@ func init() {
 				default:
 					return nil, nil
 				}
-				includeDeprecated := ctx.Arguments["includeDeprecated"].(bool)
+				// The argument is nullable: an explicit null (literal or variable) arrives as nil
+				// and, like the default, does not include deprecated fields.
+				includeDeprecated, _ := ctx.Arguments["includeDeprecated"].(bool)
 				ret := []field{}
 				for name, def := range fields {
 					if (def.DeprecationReason == "" || includeDeprecated) && def.RequiredFeatures.IsSubsetOf(ctx.Features) {
@@ -311,7 +313,9 @@ func init() {
 			},
 			Resolve: func(ctx schema.FieldContext) (interface{}, error) {
 				if t, ok := ctx.Object.(*schema.EnumType); ok {
-					includeDeprecated := ctx.Arguments["includeDeprecated"].(bool)
+					// The argument is nullable: an explicit null (literal or variable) arrives as nil
+					// and, like the default, does not include deprecated values.
+					includeDeprecated, _ := ctx.Arguments["includeDeprecated"].(bool)
 					ret := []enumValue{}
 					for name, def := range t.Values {
 						if def.DeprecationReason == "" || includeDeprecated {
